@@ -202,8 +202,12 @@ def make_export(qs, mode, anacrusis="shift", min_ppq=0, pickup=False, pin_second
                     check(a["track"] == b["track"] == 0 and a["channel"] == b["channel"], "mode 4: single track and channel")
                 elif mode == 5:
                     check((a["track"] == b["track"]) == same_voice, "mode 5: one track per (part, voice)")
-        ts = [(t, m) for (_, t, m) in evs if m.type == "time_signature"]
-        check(len(ts) >= 1, "time signature written")
+        ts = sorted(set((int(t), int(m.numerator), int(m.denominator)) for (_, t, m) in evs if m.type == "time_signature"))
+        if pickup and anacrusis == "time_sig_change":
+            exp_ts = [(0, 3, 4), (3 * ppq, 4, 4)]  # the three-quarter pickup bar gets its own signature
+        else:
+            exp_ts = [(0, 4, 4)]
+        check(ts == exp_ts, "time signatures are not written at their musical positions", ts, exp_ts)
         tempos = [(t, m.tempo) for (_, t, m) in evs if m.type == "set_tempo"]
         check(tempos == [(0, 500000)], "default tempo at tick 0", tempos)
         return [[e["track"], e["channel"]] for e in exp]
@@ -290,7 +294,7 @@ def make_trch(mode):
 
 def _exp_inst(tier):
     out = [{"qs": [2], "mode": 0, "grace": True}, {"qs": [3], "mode": 5, "min_ppq": 10, "grace": True}, {"qs": [2, 3], "mode": 2, "pin_second": True},
-           {"qs": [2], "mode": 4, "pickup": True}]
+           {"qs": [2], "mode": 4, "pickup": True}, {"qs": [2], "mode": 0, "anacrusis": "time_sig_change"}]
     if tier != "quick":
         out += [{"qs": [2, 3], "mode": 0, "pin_second": True}, {"qs": [4, 6], "mode": 2, "pin_second": True}, {"qs": [2, 3], "mode": 0}, {"qs": [4, 6], "mode": 2}, {"qs": [2, 3], "mode": 3}, {"qs": [12, 8], "mode": 5}, {"qs": [1], "mode": 1},
                 {"qs": [2], "mode": 0, "pickup": True, "anacrusis": "pad_bar"},
